@@ -6,7 +6,6 @@ package main
 import (
 	"go/ast"
 	"go/constant"
-	"go/token"
 	"go/types"
 	"sort"
 	"strings"
@@ -229,74 +228,6 @@ func (c *Ctx) typeOf(e ast.Expr) types.Type {
 	return nil
 }
 
-// sameExpr: structural equality with identifiers compared by resolved object.
-func (c *Ctx) sameExpr(a, b ast.Expr) bool {
-	a, b = unparen(a), unparen(b)
-	switch x := a.(type) {
-	case *ast.Ident:
-		y, ok := b.(*ast.Ident)
-		if !ok {
-			return false
-		}
-		ox, oy := c.obj(x), c.obj(y)
-		if ox == nil || oy == nil {
-			return x.Name == y.Name
-		}
-		return ox == oy
-	case *ast.BasicLit:
-		y, ok := b.(*ast.BasicLit)
-		return ok && x.Kind == y.Kind && x.Value == y.Value
-	case *ast.SelectorExpr:
-		y, ok := b.(*ast.SelectorExpr)
-		return ok && x.Sel.Name == y.Sel.Name && c.sameExpr(x.X, y.X)
-	case *ast.CallExpr:
-		y, ok := b.(*ast.CallExpr)
-		if !ok || len(x.Args) != len(y.Args) || !c.sameExpr(x.Fun, y.Fun) {
-			return false
-		}
-		for i := range x.Args {
-			if !c.sameExpr(x.Args[i], y.Args[i]) {
-				return false
-			}
-		}
-		return true
-	case *ast.BinaryExpr:
-		y, ok := b.(*ast.BinaryExpr)
-		return ok && x.Op == y.Op && c.sameExpr(x.X, y.X) && c.sameExpr(x.Y, y.Y)
-	case *ast.UnaryExpr:
-		y, ok := b.(*ast.UnaryExpr)
-		return ok && x.Op == y.Op && c.sameExpr(x.X, y.X)
-	case *ast.StarExpr:
-		y, ok := b.(*ast.StarExpr)
-		return ok && c.sameExpr(x.X, y.X)
-	case *ast.IndexExpr:
-		y, ok := b.(*ast.IndexExpr)
-		return ok && c.sameExpr(x.X, y.X) && c.sameExpr(x.Index, y.Index)
-	case *ast.SliceExpr:
-		y, ok := b.(*ast.SliceExpr)
-		if !ok || !c.sameExpr(x.X, y.X) {
-			return false
-		}
-		eq := func(p, q ast.Expr) bool {
-			if p == nil || q == nil {
-				return p == nil && q == nil
-			}
-			return c.sameExpr(p, q)
-		}
-		return eq(x.Low, y.Low) && eq(x.High, y.High) && eq(x.Max, y.Max)
-	case *ast.TypeAssertExpr:
-		y, ok := b.(*ast.TypeAssertExpr)
-		if !ok || !c.sameExpr(x.X, y.X) {
-			return false
-		}
-		if x.Type == nil || y.Type == nil {
-			return x.Type == nil && y.Type == nil
-		}
-		return types.Identical(c.typeOf(x.Type), c.typeOf(y.Type))
-	}
-	return false
-}
-
 // recvObj returns the receiver variable of a method declaration.
 func (c *Ctx) recvObj(fd *ast.FuncDecl) types.Object {
 	if fd.Recv == nil || len(fd.Recv.List) == 0 || len(fd.Recv.List[0].Names) == 0 {
@@ -317,48 +248,6 @@ func (c *Ctx) recvCont(fd *ast.FuncDecl) *Cont {
 		}
 	}
 	return nil
-}
-
-// isSelf: expression denotes the logical receiver container: ego, ego.Ego(), ego.ptr.
-func (c *Ctx) isSelf(fd *ast.FuncDecl, e ast.Expr) bool {
-	e = unparen(e)
-	recv := c.recvObj(fd)
-	if recv == nil {
-		return false
-	}
-	if c.obj(e) == recv {
-		return true
-	}
-	return c.isEgo(fd, e)
-}
-
-// isEgo: expression is ego.Ego() or ego.ptr (the registered outer value).
-func (c *Ctx) isEgo(fd *ast.FuncDecl, e ast.Expr) bool {
-	e = unparen(e)
-	recv := c.recvObj(fd)
-	ct := c.recvCont(fd)
-	if recv == nil || ct == nil {
-		return false
-	}
-	switch x := e.(type) {
-	case *ast.SelectorExpr:
-		if c.obj(x.X) == recv {
-			if s := c.Info.Selections[x]; s != nil && s.Obj() == ct.Ptr {
-				return true
-			}
-		}
-	case *ast.CallExpr:
-		if len(x.Args) != 0 {
-			return false
-		}
-		sel, ok := unparen(x.Fun).(*ast.SelectorExpr)
-		if !ok || !c.isSelf(fd, sel.X) {
-			return false
-		}
-		// method whose body returns the ptr field
-		return c.isEgoAccessor(c.callee(x))
-	}
-	return false
 }
 
 // isEgoAccessor: method f (interface or concrete) returns the ptr field of its receiver.
@@ -417,27 +306,6 @@ func (c *Ctx) spineBase(e ast.Expr) (ast.Expr, *Cont) {
 func (c *Ctx) isRecvSpine(fd *ast.FuncDecl, e ast.Expr) bool {
 	x, ct := c.spineBase(e)
 	return ct != nil && c.obj(x) == c.recvObj(fd) && c.recvObj(fd) != nil
-}
-
-// isCountOf: expression denotes the current length of base's spine:
-// len(base.val), base.Count(), base.Ego().Count() (Count resolved to a body returning len(recv.val)).
-func (c *Ctx) isCountOfRecv(fd *ast.FuncDecl, e ast.Expr) bool {
-	e = unparen(e)
-	call, ok := e.(*ast.CallExpr)
-	if !ok {
-		return false
-	}
-	if c.isBuiltin(call, "len") && len(call.Args) == 1 {
-		return c.isRecvSpine(fd, call.Args[0])
-	}
-	if len(call.Args) != 0 {
-		return false
-	}
-	sel, ok := unparen(call.Fun).(*ast.SelectorExpr)
-	if !ok || !c.isSelf(fd, sel.X) {
-		return false
-	}
-	return c.isLenAccessor(c.callee(call))
 }
 
 // isLenAccessor: method f's implementation returns len(recv.val).
@@ -512,58 +380,4 @@ func ifaceMethods(n *types.Named) []*types.Func {
 	return out
 }
 
-func isTok(op token.Token, set ...token.Token) bool {
-	for _, t := range set {
-		if op == t {
-			return true
-		}
-	}
-	return false
-}
-
 func sortStrings(s []string) { sort.Strings(s) }
-
-func splitOr(e ast.Expr) []ast.Expr {
-	e = unparen(e)
-	if b, ok := e.(*ast.BinaryExpr); ok && b.Op == token.LOR {
-		return append(splitOr(b.X), splitOr(b.Y)...)
-	}
-	return []ast.Expr{e}
-}
-
-func (c *Ctx) returnsConstBool(b *ast.BlockStmt, v bool) bool {
-	r := singleReturn(b)
-	return r != nil && len(r.Results) == 1 && c.isConstBool(r.Results[0], v)
-}
-
-// isCountOfVar: len(v.val), v.Count(), v.Ego().Count() for the local v of the container's own pointer type.
-func (c *Ctx) isCountOfVar(e ast.Expr, v types.Object, ct *Cont) bool {
-	if v == nil {
-		return false
-	}
-	call, ok := unparen(e).(*ast.CallExpr)
-	if !ok {
-		return false
-	}
-	if c.isBuiltin(call, "len") && len(call.Args) == 1 {
-		base, bct := c.spineBase(call.Args[0])
-		return bct == ct && c.obj(base) == v
-	}
-	if len(call.Args) != 0 {
-		return false
-	}
-	sel, ok := unparen(call.Fun).(*ast.SelectorExpr)
-	if !ok || !c.isLenAccessor(c.callee(call)) {
-		return false
-	}
-	x := unparen(sel.X)
-	if c.obj(x) == v {
-		return true
-	}
-	if inner, ok := x.(*ast.CallExpr); ok && len(inner.Args) == 0 {
-		if s2, ok := unparen(inner.Fun).(*ast.SelectorExpr); ok && c.obj(s2.X) == v && c.isEgoAccessor(c.callee(inner)) {
-			return true
-		}
-	}
-	return false
-}
